@@ -178,7 +178,7 @@ PROP = {
         "token-level scanning (parse_integer / scan_dimen over VM token streams): the kernels they call are decided here, the token loop is not",
         "texlang_stdlib::math::*Op::apply are generic forwarding wrappers (N::checked_mul etc.) and are not re-encoded; their targets are",
         "Scaled::parse_from_string / parse_no_units (String API): the print/scan harnesses split the printed text themselves and call from_decimal_digits and Scaled::new",
-        "printing of glue (Display for Glue: ' plus ' / ' minus ' and the fil units) and \\the through the VM",
+        "printing of glue (Display for Glue: ' plus ' / ' minus ' and the fil units): a harness that prints a symbolic glue and scans the three numbers back gave no verdict in 25 min (18 GB) even with small amounts, and is not registered; \\the through the VM",
         "operands outside the stated preconditions are the subject of C09 (panic freedom), not of this property",
     ],
     "assumptions": [
